@@ -449,7 +449,7 @@ func runNative(overlay map[string][]byte, pkgs map[string]string, reports []*Har
 	os.WriteFile(jf, jb, 0644)
 	gotmp := filepath.Join(tmp, "gotmp")
 	os.MkdirAll(gotmp, 0755)
-	env := append(os.Environ(), "GOFLAGS=-mod=mod", "GOPROXY=off", "GOSUMDB=off", "GOTOOLCHAIN=local", "GOTMPDIR="+gotmp)
+	env := append(os.Environ(), "GOFLAGS=-mod=mod", "GOPROXY=off", "GOSUMDB=off", "GOTOOLCHAIN=local", "GOTMPDIR="+gotmp, "VERIF_TIER="+gTier)
 	for d := range harnessByPkg {
 		bin := filepath.Join(tmp, "t_"+sanitize(d)+".test")
 		cmd := exec.Command("go", "test", "-c", "-vet=off", "-overlay", ovf, "-o", bin, "./"+d)
